@@ -146,6 +146,10 @@ def run_op(ctx, sp, op, values, bundle, prev_next, shared, persist=None):
                     if grp in state.get(i, {}) and grp not in src:
                         src[grp] = np.array(state[i][grp], dtype=float)
                 for var, arr in src.items():
+                    if not isinstance(arr, np.ndarray):
+                        # a NumPy step must leave NumPy quantities; anything else can only come from an earlier step
+                        ctx.fail("numpy-next:history-dependent:type", f"after a NumPy step, next_states[{var}] of {i} is a {type(arr).__name__}")
+                        return None, sup
                     sup.add_array(el, var, arr)
         else:
             for i, s in state.items():
